@@ -1,54 +1,149 @@
----- MODULE Hunks ----
-EXTENDS Integers, Sequences
-\* A line is a record [k, os, on, ms, mn]; k \in
-\*   "H" hunk header (os,on,ms,mn: 1-based starts and counts, counts already defaulted to 1 when omitted)
-\*   "D" delete, "I" insert, "C" context, "M" no-newline marker,
-\*   "A" line starting with "@@" that is not a header, "G" any other line
+---------------------------- MODULE Hunks ----------------------------
+(* Unified-diff hunk parsing (C14), from the property statement, the      *)
+(* documented return value of get_unified_diff_hunks and N13 (DESIGN.md). *)
+(*                                                                        *)
+(* Classify : bytes of one line -> kind                                   *)
+(*   "H" hunk header "@@ -S[,N] +S[,N] @@[ context]"  (counts default 1)  *)
+(*   "A" any other line starting with "@@"                                *)
+(*   "D" "-..."   "I" "+..."   "C" " ..."                                 *)
+(*   "M" the "\ No newline at end of file" marker (surrounding ASCII      *)
+(*       whitespace ignored, but not a leading space: that is context)    *)
+(*   "G" anything else                                                    *)
+(* HStep    : the per-line machine (implementation shaped, L3)            *)
+(* Geometry : what the result must be for a DESCRIPTION of well-formed    *)
+(*            hunks - computed from the description, not by the machine   *)
+(*            (L1); MC_Hunks checks RunHunks(Concretise(d)) = Geometry(d) *)
+EXTENDS Integers, Sequences, SequencesExt, Bytes
+
 NoLine == -100
+Marker == <<92,32,78,111,32,110,101,119,108,105,110,101,32,97,116,32,101,110,100,32,111,102,32,102,105,108,101>>
+IsWsB(b) == b \in {32, 9, 10, 13, 11, 12}
+RECURSIVE LStrip(_,_)
+LStrip(l, p) == IF p <= Len(l) /\ IsWsB(l[p]) THEN LStrip(l, p + 1) ELSE p
+RECURSIVE RStrip(_,_)
+RStrip(l, p) == IF p >= 1 /\ IsWsB(l[p]) THEN RStrip(l, p - 1) ELSE p
+StripWs(l) == SubSeq(l, LStrip(l, 1), RStrip(l, Len(l)))
+IsD(b) == b >= 48 /\ b <= 57
+RECURSIVE Digs(_,_)
+Digs(l, p) == IF p <= Len(l) /\ IsD(l[p]) THEN Digs(l, p + 1) ELSE p
+RECURSIVE NumVal(_,_,_,_)
+NumVal(l, p, q, acc) == IF p >= q THEN acc ELSE NumVal(l, p + 1, q, acc * 10 + (l[p] - 48))
+(* parse "S[,N]" at p: [ok, s, n, p, big] *)
+HRange(l, p) ==
+  LET e1 == Digs(l, p) IN
+  IF e1 = p THEN [ok |-> FALSE, s |-> 0, n |-> 0, p |-> p, big |-> FALSE]
+  ELSE IF e1 <= Len(l) /\ l[e1] = 44 /\ Digs(l, e1 + 1) > e1 + 1 THEN
+       LET e2 == Digs(l, e1 + 1) IN
+       [ok |-> TRUE, s |-> IF e1 - p > 9 THEN 0 ELSE NumVal(l, p, e1, 0),
+        n |-> IF e2 - e1 - 1 > 9 THEN 0 ELSE NumVal(l, e1 + 1, e2, 0), p |-> e2,
+        big |-> e1 - p > 9 \/ e2 - e1 - 1 > 9]
+  ELSE [ok |-> TRUE, s |-> IF e1 - p > 9 THEN 0 ELSE NumVal(l, p, e1, 0), n |-> 1, p |-> e1, big |-> e1 - p > 9]
+NoCtx == [has |-> FALSE, b |-> <<>>]
+Plain(k) == [k |-> k, os |-> 0, on |-> 0, ms |-> 0, mn |-> 0, ctx |-> NoCtx, big |-> FALSE]
+\* header: "@@ -" digits ["," digits] " +" digits ["," digits] " @@" then end of line or " " and any context
+HeaderOf(l) ==
+  IF ~StartsWith(l, <<64,64,32,45>>) THEN Plain("A")
+  ELSE LET a == HRange(l, 5) IN
+    IF ~a.ok \/ ~HasAt(l, <<32,43>>, a.p) THEN Plain("A")
+    ELSE LET b == HRange(l, a.p + 2) IN
+      IF ~b.ok \/ ~HasAt(l, <<32,64,64>>, b.p) THEN Plain("A")
+      ELSE LET e == b.p + 3 IN
+        IF e > Len(l) THEN [k |-> "H", os |-> a.s, on |-> a.n, ms |-> b.s, mn |-> b.n, ctx |-> NoCtx, big |-> a.big \/ b.big]
+        ELSE IF l[e] = 32 THEN [k |-> "H", os |-> a.s, on |-> a.n, ms |-> b.s, mn |-> b.n,
+                                ctx |-> [has |-> TRUE, b |-> SubSeq(l, e + 1, Len(l))], big |-> a.big \/ b.big]
+        ELSE Plain("A")
+Classify(l) ==
+  IF StartsWith(l, <<64,64>>) THEN HeaderOf(l)
+  ELSE IF l # <<>> /\ l[1] = 45 THEN Plain("D")
+  ELSE IF l # <<>> /\ l[1] = 43 THEN Plain("I")
+  ELSE IF l # <<>> /\ l[1] = 32 THEN Plain("C")
+  ELSE IF StripWs(l) = Marker THEN Plain("M")
+  ELSE Plain("G")
+
+(* ------------------------- the per-line machine ------------------------ *)
 Side(start, num) == [start |-> start - 1, num |-> num, first |-> NoLine, last |-> NoLine, changed |-> 0]
-Min(a, b) == IF a < b THEN a ELSE b
+Min2(a, b) == IF a < b THEN a ELSE b
 Finish(h) ==
   LET preO == IF h.o.first # NoLine THEN <<h.o.first - h.o.start>> ELSE <<>>
       preM == IF h.m.first # NoLine THEN <<h.m.first - h.m.start>> ELSE <<>>
       postO == IF h.o.last # NoLine THEN <<h.o.num - (h.o.last - h.o.start + 1)>> ELSE <<>>
       postM == IF h.m.last # NoLine THEN <<h.m.num - (h.m.last - h.m.start + 1)>> ELSE <<>>
-      mn(s) == IF s = <<>> THEN 0 ELSE IF Len(s) = 1 THEN s[1] ELSE Min(s[1], s[2])
-  IN [o |-> h.o, m |-> h.m, pre |-> mn(preO \o preM), post |-> mn(postO \o postM)]
-
-\* state: [hunks, cur (in a hunk?), h, oi, mi, tdel, tins]
-S0 == [hunks |-> <<>>, inh |-> FALSE, h |-> [o |-> Side(1,1), m |-> Side(1,1)], oi |-> 0, mi |-> 0, tdel |-> 0, tins |-> 0]
+      mn(s) == IF s = <<>> THEN 0 ELSE IF Len(s) = 1 THEN s[1] ELSE Min2(s[1], s[2])
+  IN [o |-> h.o, m |-> h.m, pre |-> mn(preO \o preM), post |-> mn(postO \o postM), ctx |-> h.ctx]
+H0 == [o |-> Side(1, 1), m |-> Side(1, 1), ctx |-> NoCtx]
+(* status: "run" | "stopped" (non-hunk line without garbage tolerance) | "malformed" | "unspec" *)
+S0 == [status |-> "run", hunks |-> <<>>, inh |-> FALSE, h |-> H0, oi |-> 0, mi |-> 0,
+       tdel |-> 0, tins |-> 0, n |-> 0, errline |-> 0]
 MaybeFinish(s) ==
   IF s.inh /\ s.oi >= s.h.o.num /\ s.mi >= s.h.m.num
   THEN [s EXCEPT !.hunks = Append(s.hunks, Finish(s.h)), !.inh = FALSE, !.oi = 0, !.mi = 0]
   ELSE s
-Result(s, nproc) == [err |-> "none", line |-> 0, hunks |-> s.hunks, nproc |-> nproc, tdel |-> s.tdel, tins |-> s.tins]
-Err(kind, n) == [err |-> kind, line |-> n, hunks |-> <<>>, nproc |-> 0, tdel |-> 0, tins |-> 0]
+(* consume classified line l as line number s.n + 1 *)
+HStep(s0, l, ignore) ==
+  LET s == [s0 EXCEPT !.n = @ + 1] IN
+  IF l.big THEN [s EXCEPT !.status = "unspec"]
+  ELSE IF l.k = "H" THEN
+    IF s.inh THEN [s EXCEPT !.status = "malformed", !.errline = s.n]
+    ELSE MaybeFinish([s EXCEPT !.inh = TRUE, !.oi = 0, !.mi = 0,
+                               !.h = [o |-> Side(l.os, l.on), m |-> Side(l.ms, l.mn), ctx |-> l.ctx]])
+  ELSE IF s.inh /\ l.k = "D" THEN
+    LET pos == s.h.o.start + s.oi
+        o2 == [s.h.o EXCEPT !.first = IF @ = NoLine THEN pos ELSE @, !.last = pos, !.changed = @ + 1] IN
+    MaybeFinish([s EXCEPT !.h.o = o2, !.oi = @ + 1, !.tdel = @ + 1])
+  ELSE IF s.inh /\ l.k = "I" THEN
+    LET pos == s.h.m.start + s.mi
+        m2 == [s.h.m EXCEPT !.first = IF @ = NoLine THEN pos ELSE @, !.last = pos, !.changed = @ + 1] IN
+    MaybeFinish([s EXCEPT !.h.m = m2, !.mi = @ + 1, !.tins = @ + 1])
+  ELSE IF s.inh /\ l.k = "C" THEN MaybeFinish([s EXCEPT !.oi = @ + 1, !.mi = @ + 1])
+  ELSE IF s.inh /\ l.k = "M" THEN MaybeFinish(s)
+  ELSE \* a non-hunk line: D/I/C/M outside a hunk, "A", "G"
+    IF s.inh THEN [s EXCEPT !.status = "malformed", !.errline = s.n]
+    ELSE IF ignore THEN s
+    ELSE [s EXCEPT !.status = "stopped", !.n = @ - 1]       \* this line is not consumed
 
-RECURSIVE Run(_,_,_,_)
-Run(lines, ignore, s, n) ==      \* n = 1-based index of the line to process
-  IF n > Len(lines)
-  THEN IF s.inh THEN Err("eof", Len(lines)) ELSE Result(s, Len(lines))
-  ELSE LET l == lines[n] IN
-    IF l.k = "H" THEN
-      IF s.inh THEN Err("malformed", n)
-      ELSE Run(lines, ignore,
-               MaybeFinish([s EXCEPT !.inh = TRUE, !.h = [o |-> Side(l.os, l.on), m |-> Side(l.ms, l.mn)], !.oi = 0, !.mi = 0]),
-               n + 1)
-    ELSE IF s.inh /\ l.k = "D" THEN
-      LET pos == s.h.o.start + s.oi
-          o2 == [s.h.o EXCEPT !.first = IF @ = NoLine THEN pos ELSE @, !.last = pos, !.changed = @ + 1] IN
-      Run(lines, ignore, MaybeFinish([s EXCEPT !.h.o = o2, !.oi = @ + 1, !.tdel = @ + 1]), n + 1)
-    ELSE IF s.inh /\ l.k = "I" THEN
-      LET pos == s.h.m.start + s.mi
-          m2 == [s.h.m EXCEPT !.first = IF @ = NoLine THEN pos ELSE @, !.last = pos, !.changed = @ + 1] IN
-      Run(lines, ignore, MaybeFinish([s EXCEPT !.h.m = m2, !.mi = @ + 1, !.tins = @ + 1]), n + 1)
-    ELSE IF s.inh /\ l.k = "C" THEN
-      Run(lines, ignore, MaybeFinish([s EXCEPT !.oi = @ + 1, !.mi = @ + 1]), n + 1)
-    ELSE IF s.inh /\ l.k = "M" THEN
-      Run(lines, ignore, MaybeFinish(s), n + 1)
-    ELSE \* a non-hunk line (includes D/I/C/M outside a hunk, "A", "G")
-      IF s.inh THEN Err("malformed", n)
-      ELSE IF ignore THEN Run(lines, ignore, s, n + 1)
-      ELSE Result(s, n - 1)
-RunHunks(lines, ignore) == Run(lines, ignore, S0, 1)
-====
+Result(s) ==
+  IF s.status = "unspec" THEN [err |-> "unspec", line |-> 0, hunks |-> <<>>, nproc |-> 0, tdel |-> 0, tins |-> 0]
+  ELSE IF s.status = "malformed" THEN [err |-> "hunk", line |-> s.errline, hunks |-> <<>>, nproc |-> 0, tdel |-> 0, tins |-> 0]
+  ELSE IF s.inh THEN [err |-> "hunk", line |-> s.n, hunks |-> <<>>, nproc |-> 0, tdel |-> 0, tins |-> 0]   \* ends early
+  ELSE [err |-> "none", line |-> 0, hunks |-> s.hunks, nproc |-> s.n, tdel |-> s.tdel, tins |-> s.tins]
+RECURSIVE RunFrom(_,_,_,_)
+RunFrom(s, ls, i, ignore) ==
+  IF i > Len(ls) \/ s.status # "run" THEN s ELSE RunFrom(HStep(s, ls[i], ignore), ls, i + 1, ignore)
+(* ls: sequence of classified lines *)
+RunHunks(ls, ignore) == Result(RunFrom(S0, ls, 1, ignore))
+RunBytes(lines, ignore) == RunHunks([i \in 1..Len(lines) |-> Classify(lines[i])], ignore)
+
+(* --------------------- declarative geometry (L1) ---------------------- *)
+(* A hunk description: [os, ms, body] with body a sequence over
+   {"C","D","I","M"}; its header counts FOLLOW from the body. *)
+CountK(body, ks) == Len(SelectSeq(body, LAMBDA x : x \in ks))
+OCount(d) == CountK(d.body, {"C", "D"})
+MCount(d) == CountK(d.body, {"C", "I"})
+(* index (1-based) in body of the first / last line of kind k; 0 if none *)
+FirstIdx(body, k) == IF \E i \in 1..Len(body) : body[i] = k
+                     THEN CHOOSE i \in 1..Len(body) : body[i] = k /\ \A j \in 1..(i-1) : body[j] # k ELSE 0
+LastIdx(body, k) == IF \E i \in 1..Len(body) : body[i] = k
+                    THEN CHOOSE i \in 1..Len(body) : body[i] = k /\ \A j \in (i+1)..Len(body) : body[j] # k ELSE 0
+(* number of side lines (ks) strictly before body index i *)
+Before(body, i, ks) == CountK(SubSeq(body, 1, i - 1), ks)
+GeoSide(d, start, k, ks) ==
+  LET f == FirstIdx(d.body, k)  l == LastIdx(d.body, k) IN
+  [start |-> start - 1, num |-> CountK(d.body, ks),
+   first |-> IF f = 0 THEN NoLine ELSE start - 1 + Before(d.body, f, ks),
+   last |-> IF l = 0 THEN NoLine ELSE start - 1 + Before(d.body, l, ks),
+   changed |-> CountK(d.body, {k})]
+GeoHunk(d) ==
+  LET o == GeoSide(d, d.os, "D", {"C", "D"})
+      m == GeoSide(d, d.ms, "I", {"C", "I"})
+      pres == (IF o.first # NoLine THEN {o.first - o.start} ELSE {}) \cup (IF m.first # NoLine THEN {m.first - m.start} ELSE {})
+      posts == (IF o.last # NoLine THEN {o.num - (o.last - o.start + 1)} ELSE {}) \cup (IF m.last # NoLine THEN {m.num - (m.last - m.start + 1)} ELSE {})
+      minS(S) == IF S = {} THEN 0 ELSE CHOOSE x \in S : \A y \in S : x <= y
+  IN [o |-> o, m |-> m, pre |-> minS(pres), post |-> minS(posts), ctx |-> NoCtx]
+(* lines of a description: header + body, as classified lines *)
+DescLines(d) ==
+  << [k |-> "H", os |-> d.os, on |-> OCount(d), ms |-> d.ms, mn |-> MCount(d), ctx |-> NoCtx, big |-> FALSE] >>
+  \o [i \in 1..Len(d.body) |-> Plain(d.body[i])]
+(* A trailing marker (after both counts are satisfied) is not part of the hunk (N13):
+   a description is CLOSED when its body does not end in such a marker. *)
+Closed(d) == d.body = <<>> \/ d.body[Len(d.body)] # "M"
+=======================================================================
